@@ -917,6 +917,11 @@ func (b *Builder) cmp(op Op, x, y *Term) *Term {
 	return b.mk(&Term{op: op, args: []*Term{x, y}})
 }
 
+// RawULe / RawSLe build the comparison without interval folding; they are used
+// to state the very bound that a symbol's declared interval relies on.
+func (b *Builder) RawULe(x, y *Term) *Term { return b.mk(&Term{op: OpULe, args: []*Term{x, y}}) }
+func (b *Builder) RawSLe(x, y *Term) *Term { return b.mk(&Term{op: OpSLe, args: []*Term{x, y}}) }
+
 func (b *Builder) ULt(x, y *Term) *Term { return b.cmp(OpULt, x, y) }
 func (b *Builder) ULe(x, y *Term) *Term { return b.cmp(OpULe, x, y) }
 func (b *Builder) SLt(x, y *Term) *Term { return b.cmp(OpSLt, x, y) }
